@@ -104,7 +104,7 @@ def as_set_job(job):
 
 def _tlc_one(args):
     rec, tag, i, diag = args
-    tf = os.path.join(lib.WORK, "%s.fl%05d.ndjson" % (tag, i))
+    tf = os.path.join(lib.WORK, "%s.p%d.fl%05d.ndjson" % (tag, os.getpid(), i))
     with open(tf, "w") as f:
         f.write(json.dumps(rec) + "\n")
     meta = os.path.join(lib.WORK, "tlc_fl_%s_%d_%d" % (tag, os.getpid(), i))
